@@ -17,6 +17,8 @@ package netpoll
 //@ ghost field linkBufferNode.sp int
 //@ ghost field linkBufferNode.kids int
 //@ ghost field UnsafeLinkBuffer.peekpos int
+//@ ghost field UnsafeLinkBuffer.peekhand int
+//   peekhand(b)  length of the prefix of the current cachePeek block that Peek has handed out (0 for a fresh block)
 //   peekpos(b)  stream position of cachePeek[0]: a non-empty cachePeek always starts at the read position
 //   kids(n)  number of live Slice/Refer children that hold a reference on n (refer == 1 + kids while n is chained)
 //@ ghost map pool int
@@ -188,7 +190,7 @@ package netpoll
 //@   loop 1 invariant forall m *linkBufferNode :: !inb(b, m) ==> m.off == old(m.off)
 
 //@ func (*UnsafeLinkBuffer).Peek
-//@   property C01 C02
+//@   property C01 C02 C03
 //@   requires wf(b)
 //@   ensures wf(b)
 //@   ensures old(n <= 0) ==> err == nil && len(p) == 0 && unchanged(UnsafeLinkBuffer.read, UnsafeLinkBuffer.cachePeek, linkBufferNode.mode)
@@ -200,9 +202,13 @@ package netpoll
 //@   note C02: Peek returns nothing to the pool - every non-nil cachePeek was handed out by the Peek that created it and stays valid until Release; a cache
 //@     block that is too small is parked in caches (recycled by Release) instead of being freed
 //@   forbid free
-//@   modifies b.read, b.cachePeek, b.caches, b.peekpos, linkBufferNode.mode, mem, mem:[]byte, pool, blknode, cacheown, cacheidx, cachesof, peekown
+//@   modifies b.read, b.cachePeek, b.caches, b.peekpos, b.peekhand, linkBufferNode.mode, mem, mem:[]byte, pool, blknode, cacheown, cacheidx, cachesof, peekown
 //@   ghost after store caches#1: peekown[b.cachePeek#arr] = nil; cacheown[b.cachePeek#arr] = b; cacheidx[b.cachePeek#arr] = len(b.caches) - 1; cachesof[b.caches#arr] = b
-//@   ghost after store cachePeek#2: peekown[b.cachePeek#arr] = b
+//@   note C02 (content of Peek results): bytes of the cache block that were handed out are not rewritten - appends start at or behind them.  On the unchanged
+//@     tree this fails after a consuming read (recalLen resets cachePeek[:0] and the next cross-node Peek rewrites the block from index 0): known finding
+//@   ghost after store cachePeek#2: peekown[b.cachePeek#arr] = b; b.peekhand = 0
+//@   ghost before call append#2: assert len(p) >= b.peekhand
+//@   ghost at return: b.peekhand = ite(err == nil && n > 0 && b.cachePeek != nil && p#arr == b.cachePeek#arr && n > b.peekhand, n, b.peekhand)
 //@   ghost after store cachePeek#3: b.peekpos = b.read.sp + b.read.off
 //@   loop 1 invariant len(p) <= n && (scanned <= len(p) || len(p) == n) && 0 <= scanned && p#arr != 0 && len(p) <= cap(p) && n <= cap(p)
 //@   loop 1 invariant p#arr == b.cachePeek#arr && p#base == 0 && cap(p) == cap(b.cachePeek)
